@@ -282,6 +282,31 @@ def oldstyle_entries():
     return out
 
 
+def postinit_entries():
+    """expr_dataclass user nodes whose __post_init__ validates / normalises idempotently /
+    transforms its fields non-idempotently (vf/c17_usercls.py), alone and nested."""
+    sm = ("Sum", T(X, Y))
+    specs = {
+        "PostCheck": (OLD + "PostCheck", sm),
+        "PostNormalize": (OLD + "PostNormalize", sm, NONE),
+        "PostNormalize-set": (OLD + "PostNormalize", X, S("strict")),
+        "PostWrap": (OLD + "PostWrap", sm),
+        "PostScale": (OLD + "PostScale", V("arr"), C(3)),
+        "PostScale0": (OLD + "PostScale", V("arr"), C(0)),
+        "PostExtend": (OLD + "PostExtend", T(X, C(1))),
+        "PostWrapD0": (OLD + "PostWrapD0", sm),
+        "PostScaleU": (OLD + "PostScaleU", V("arr"), C(2)),
+    }
+    out = [_entry(f"postinit:{k}", k, "user", v) for k, v in specs.items()]
+    for k in ("PostCheck", "PostNormalize", "PostWrap", "PostScale", "PostExtend"):
+        out.append(_entry(f"nest:Sum2[1]:{k}", f"Sum2[1]:{k}", "nest", ("Sum", T(Z, specs[k]))))
+    out.append(_entry("nest:PostWrap[0]:PostScale", "PostWrap[0]:PostScale", "nest",
+                      (OLD + "PostWrap", specs["PostScale"])))
+    out.append(_entry("nest:CallKw02[2]:PostWrap", "CallKw02[2]:PostWrap", "nest",
+                      ("CallWithKwargs", V("f"), T(), ("map", ("k", Z), ("j", specs["PostWrap"])))))
+    return out
+
+
 FLAT_VALUES = {"name": S("x"), "u": C(11), "w": S("tag")}
 
 
@@ -524,7 +549,8 @@ _POOLS = {}
 def pool(tier):
     if tier not in _POOLS:
         base = (single_entries() + extra_entries() + arith_entries() + user_entries()
-                + user_flat_entries(tier) + oldstyle_entries() + nest_entries(tier)
+                + user_flat_entries(tier) + oldstyle_entries() + postinit_entries()
+                + nest_entries(tier)
                 + user_nest_entries(tier))
         allp = base + variant_entries(base) + compiled_entries(tier)
         names = [e["name"] for e in allp]
